@@ -18,6 +18,7 @@ import (
 	"time"
 
 	sdktrace "go.opentelemetry.io/otel/sdk/trace"
+	"go.opentelemetry.io/otel/attribute"
 	"go.opentelemetry.io/otel/trace"
 
 	"verif/harness/vgen"
@@ -160,6 +161,35 @@ func (s *samp) build(rec *recorder) sdktrace.Sampler {
 	}
 }
 
+// buildPlain builds the sampler without recorders, spelling ParentBased the way users do: options in any
+// order, options equal to the defaults left out, earlier options overridden by later ones.
+func (s *samp) buildPlain(r *vgen.Rand) sdktrace.Sampler {
+	if s.Kind != "parent" {
+		return s.build(nil)
+	}
+	mk := []func(sdktrace.Sampler) sdktrace.ParentBasedSamplerOption{nil, sdktrace.WithRemoteParentSampled, sdktrace.WithRemoteParentNotSampled,
+		sdktrace.WithLocalParentSampled, sdktrace.WithLocalParentNotSampled}
+	defaults := []string{"", "always", "never", "always", "never"}
+	var opts []sdktrace.ParentBasedSamplerOption
+	order := []int{1, 2, 3, 4}
+	for i := range order {
+		j := i + r.Intn(len(order)-i)
+		order[i], order[j] = order[j], order[i]
+	}
+	for _, k := range order {
+		if s.Sub[k].Kind == defaults[k] && r.Bool() {
+			continue
+		}
+		opts = append(opts, mk[k](s.Sub[k].buildPlain(r)))
+	}
+	if r.Chance(1, 2) { // a decoy for one delegate, overridden by the options that follow
+		k := 1 + r.Intn(4)
+		decoy := vgen.Pick(r, []sdktrace.Sampler{sdktrace.AlwaysSample(), sdktrace.NeverSample(), customSampler{d: sdktrace.RecordOnly}})
+		opts = append([]sdktrace.ParentBasedSamplerOption{mk[k](decoy)}, append(opts, mk[k](s.Sub[k].buildPlain(r)))...)
+	}
+	return sdktrace.ParentBased(s.Sub[0].buildPlain(r), opts...)
+}
+
 // ---- programs ------------------------------------------------------------------
 
 type ctxPlan struct {
@@ -169,15 +199,21 @@ type ctxPlan struct {
 	Remote   bool
 }
 type opPlan struct {
-	Kind    int // 0 none, 1 span Idx, 2 context
-	Idx     int
-	Ctx     ctxPlan
-	NewRoot bool
+	Kind      int // 0 none, 1 span Idx, 2 context, 3 nil context
+	Idx       int
+	Ctx       ctxPlan
+	NewRoot   bool
+	Cancelled bool // the context handed to Start is already cancelled
+	Noise     int  // start options that must not matter: span kind, attributes, links, timestamp (bit set)
+	Tracer    int  // which of the provider's tracers
+	EndTwice  bool
 }
 type plan struct {
 	Ops      []opPlan
 	Gens     [][2]string // hex trace id, hex span id
 	Blocking bool        // batch processor built WithBlocking (enqueueBlockOnQueueFull) or not (enqueueDrop)
+	Plain    bool        // sampler built without recorders (answers not observed), see buildPlain
+	Seed     uint64      // for the choices buildPlain makes
 	Stock    bool        // use the SDK's stock random ID generator over the scripted source below
 	Words    []uint64    // 63-bit words the source answers, then Fill for ever
 	Fill     uint64
@@ -305,11 +341,13 @@ func runProgram(s *samp, p plan) progObs {
 	}
 	opts := []sdktrace.TracerProviderOption{sdktrace.WithIDGenerator(idgen),
 		sdktrace.WithSpanProcessor(sdktrace.NewSimpleSpanProcessor(e1)), sdktrace.WithSpanProcessor(bsp)}
-	if s != nil {
+	if s != nil && p.Plain {
+		opts = append(opts, sdktrace.WithSampler(s.buildPlain(vgen.NewRand(p.Seed))))
+	} else if s != nil {
 		opts = append(opts, sdktrace.WithSampler(recSampler{inner: s.build(rec), rec: rec}))
 	}
 	tp := sdktrace.NewTracerProvider(opts...)
-	tr := tp.Tracer("c09")
+	trs := []trace.Tracer{tp.Tracer("c09"), tp.Tracer("c09/other", trace.WithInstrumentationVersion("2"))}
 	bg := context.Background()
 	var ctxs []context.Context
 	var spans []trace.Span
@@ -325,7 +363,27 @@ func runProgram(s *samp, p plan) progObs {
 		if op.NewRoot {
 			so = append(so, trace.WithNewRoot())
 		}
-		c, sp := tr.Start(ctx, "s", so...)
+		if op.Noise&1 != 0 {
+			so = append(so, trace.WithSpanKind(trace.SpanKind(1+op.Noise%5)))
+		}
+		if op.Noise&2 != 0 {
+			so = append(so, trace.WithAttributes(attribute.String("sampling.priority", "1"), attribute.Bool("sampled", true)))
+		}
+		if op.Noise&4 != 0 {
+			so = append(so, trace.WithLinks(trace.Link{SpanContext: mkSpanContext(ctxPlan{TID: strings.Repeat("ab", 16), SID: strings.Repeat("cd", 8), Flags: 1, TS: "l=1", Remote: true})}))
+		}
+		if op.Noise&8 != 0 {
+			so = append(so, trace.WithTimestamp(time.Unix(1, 0)))
+		}
+		if op.Cancelled && op.Kind != 3 {
+			cc, cancel := context.WithCancel(ctx)
+			cancel()
+			ctx = cc
+		}
+		if op.Kind == 3 {
+			ctx = nil //nolint:staticcheck // Start documents that a nil context is treated as Background
+		}
+		c, sp := trs[op.Tracer%2].Start(ctx, "s", so...)
 		ctxs = append(ctxs, c)
 		spans = append(spans, sp)
 		if !trace.SpanContextFromContext(c).Equal(sp.SpanContext()) {
@@ -337,7 +395,7 @@ func runProgram(s *samp, p plan) progObs {
 		tid, sid := sc.TraceID(), sc.SpanID()
 		so := spanObs{TID: hex.EncodeToString(tid[:]), SID: hex.EncodeToString(sid[:]), Flags: byte(sc.TraceFlags()),
 			TS: sc.TraceState().String(), Remote: sc.IsRemote(), Recording: sp.IsRecording()}
-		if s != nil && i < len(rec.answers) {
+		if s != nil && !p.Plain && i < len(rec.answers) {
 			a := rec.answers[i]
 			so.HasAns, so.Dec, so.AnsTS, so.Path = true, int(a.d), a.ts, a.path
 			if leaf := s.leafAt(a.path); leaf != nil && leaf.Kind == "ratio" {
@@ -351,11 +409,14 @@ func runProgram(s *samp, p plan) progObs {
 		}
 		o.Spans = append(o.Spans, so)
 	}
-	if s != nil && len(rec.answers) != len(spans) {
+	if s != nil && !p.Plain && len(rec.answers) != len(spans) {
 		o.Problems = append(o.Problems, fmt.Sprintf("%d Starts but the sampler was asked %d times", len(spans), len(rec.answers)))
 	}
-	for _, sp := range spans {
+	for i, sp := range spans {
 		sp.End()
+		if p.Ops[i].EndTwice {
+			sp.End() // a second End must not export the span again
+		}
 	}
 	for _, sp := range spans {
 		if sp.IsRecording() {
@@ -388,7 +449,7 @@ func (p plan) opsCoq() string {
 			par = vgen.App("PSpan", vgen.Nat(op.Idx))
 		case 2:
 			par = vgen.App("PCtx", op.Ctx.coq())
-		}
+		} // 3 (nil context): PNone
 		items = append(items, vgen.App("Build_start_op", par, vgen.Bool(op.NewRoot)))
 	}
 	return vgen.List(items)
@@ -633,6 +694,15 @@ func genPlan(r *vgen.Rand, n int, ratios []uint64) plan {
 			op.Kind, op.Ctx = 2, genCtx(r, ratios)
 		}
 		op.NewRoot = r.Chance(1, 8)
+		if op.Kind == 0 && r.Chance(1, 6) {
+			op.Kind = 3
+		}
+		op.Cancelled = r.Chance(1, 8)
+		if r.Chance(1, 3) {
+			op.Noise = r.Intn(16)
+		}
+		op.Tracer = r.Intn(2)
+		op.EndTwice = r.Chance(1, 6)
 		p.Ops = append(p.Ops, op)
 		t := tidWith(r, genCoord(r, ratios...), r.U64())
 		sid := make([]byte, 8)
@@ -655,6 +725,8 @@ func (p plan) describe() []string {
 	for i, op := range p.Ops {
 		s := "root"
 		switch op.Kind {
+		case 3:
+			s = "root (nil context)"
 		case 1:
 			s = fmt.Sprintf("child of #%d", op.Idx)
 		case 2:
@@ -662,6 +734,15 @@ func (p plan) describe() []string {
 		}
 		if op.NewRoot {
 			s += " +newroot"
+		}
+		if op.Cancelled {
+			s += " +cancelled-ctx"
+		}
+		if op.Noise != 0 {
+			s += fmt.Sprintf(" +options(%#x)", op.Noise)
+		}
+		if op.EndTwice {
+			s += " +end-twice"
 		}
 		if i < len(p.Gens) {
 			s += fmt.Sprintf(" gen=%s/%s", p.Gens[i][0], p.Gens[i][1])
@@ -814,7 +895,7 @@ func main() {
 			for _, pr := range ob.Problems {
 				w.Violation(pr, desc)
 			}
-			args := append([]string{s.coq(), p.gensCoq(), p.opsCoq()}, ob.coqTail()...)
+			args := append([]string{vgen.Bool(!p.Plain), s.coq(), p.gensCoq(), p.opsCoq()}, ob.coqTail()...)
 			nontriv := false
 			for _, op := range p.Ops {
 				if op.Kind != 0 {
@@ -869,7 +950,12 @@ func main() {
 		if r.Chance(1, 15) {
 			n = 40
 		}
-		addProg(s, genPlan(r, n, ratiosIn(s, nil)), "program")
+		pl := genPlan(r, n, ratiosIn(s, nil))
+		kind := "program"
+		if r.Chance(1, 4) {
+			pl.Plain, pl.Seed, kind = true, r.U64(), "program-plain"
+		}
+		addProg(s, pl, kind)
 	}
 
 	// tracestate on every decision: the ratio sampler used directly (and behind ParentBased, and the constant
